@@ -112,14 +112,28 @@ VALID_STARTS = {s for s in STARTS if "Nope" not in s}
 OPS = ["expand", "shrink", "copy", "validate", "print", "sort"]
 
 
+def add_prefix(text, ns):
+    """Put the namespace prefix in front of every tag of an annotation text."""
+    if not ns:
+        return text
+    return re.sub(r"(^|[(,]\s*)(?=[^\s(),])", lambda m: m.group(1) + ns, text)
+
+
+def strip_prefix(text, ns):
+    if not ns or text is None:
+        return text
+    return re.sub(r"(^|[(,]\s*)" + re.escape(ns), r"\1", text)
+
+
 class Env:
-    def __init__(self):
+    def __init__(self, ns=""):
         from hed import load_schema_version
         from hed.models.definition_dict import DefinitionDict
         from hed.models.hed_string import HedString
         from hed.validator import HedValidator
-        self.schema = load_schema_version("8.3.0")
-        self.dd = DefinitionDict(DEFS, self.schema)
+        self.ns = ns
+        self.schema = load_schema_version(ns + "8.3.0")
+        self.dd = DefinitionDict([add_prefix(d, ns) for d in DEFS], self.schema)
         self.defs_ok = (not self.dd.issues) and len(self.dd.defs) == len(DEFS)
         self.HedString = HedString
         self.validator = HedValidator(self.schema, def_dicts=self.dd)
@@ -133,7 +147,7 @@ def printed(hs):
 
 
 def run_history(env, rec, start, hist):
-    hs = env.HedString(start, env.schema, env.dd)
+    hs = env.HedString(add_prefix(start, env.ns), env.schema, env.dd)
     model = to_tree(start)
     originals = []   # (object, model canon at copy time) for copies left behind
     for step, op in enumerate(hist):
@@ -167,7 +181,9 @@ def run_history(env, rec, start, hist):
             rec.violation(f"C09:history:raises:{type(e).__name__}:{op}", error=repr(e)[:200], **where)
             return
         rec.n("transitions")
-        text = printed(hs)
+        text = strip_prefix(printed(hs), env.ns)
+        if env.ns:
+            where["namespace"] = env.ns
         if text is None:
             rec.violation("C09:history:cyclic-tree-after:" + op, **where)
             return
@@ -182,7 +198,7 @@ def run_history(env, rec, start, hist):
             rec.violation(f"C09:history:{op}:result-differs-from-reference", printed=text, expected=repr(model), **where)
             return
         for obj, c in originals:
-            t = printed(obj)
+            t = strip_prefix(printed(obj), env.ns)
             if t is None or canon(to_tree(t)) != c:
                 rec.violation(f"C09:history:original-changed-by-{op}-on-copy", original_now=t, **where)
                 return
@@ -203,6 +219,15 @@ def worker_hist(rec, shard, nshards, depth, seed):
         hists += list(itertools.product(OPS, repeat=d))
     # only maximal histories and those shorter ones are all prefixes -> run length==depth plus all shorter (cheap)
     cases = [(s, h) for s in STARTS for h in hists if len(h) == depth]
+    # the same under a namespace prefix (every tag written ts:...), one level shallower
+    env_ns = Env("ts:")
+    if not env_ns.defs_ok:
+        rec.violation("C09:definitions-of-the-harness-not-accepted", namespace="ts:",
+                      issues=[i["message"] for i in env_ns.dd.issues])
+    cases_ns = [(s, h) for s in STARTS for h in hists if len(h) == max(1, depth - 1)] if env_ns.defs_ok else []
+    for ci in core.shard_order(len(cases_ns), shard, nshards, seed):
+        s, h = cases_ns[ci]
+        run_history(env_ns, rec, s, h)
     for ci in core.shard_order(len(cases), shard, nshards, seed):
         s, h = cases[ci]
         run_history(env, rec, s, h)
